@@ -9,9 +9,10 @@ CONSTANTS
     CapN = 0
     Cache = 4096
     Compress = FALSE
+    ExtK = 0
     CapProbe = FALSE
     Debug = TRUE
     HookMode = "panic_end"
 VIEW View
-PROPERTIES HttpEqualsPipe OneTurnPerContinuation CapsHold CapReplaces HookBalanced
+PROPERTIES HttpEqualsPipe OneTurnPerContinuation CapsHold ExtCapHolds CapReplaces HookBalanced
 CHECK_DEADLOCK FALSE
